@@ -47,9 +47,14 @@ def scenarios(ctx):
                 steps.append({"op": "extract", "variable": "request.host", "kind": "host",
                               "host": rng.choice(["example.com", "example.com:8443", "[::1]:80", "10.0.0.1", "a.b.c:1", "UPPER.example.com"])})
             elif x < 0.3:
-                name = rng.choice(["X-Api-Key", "Authorization", "x-lower", "X-Tenant"])
-                steps.append({"op": "extract", "variable": "request.header." + name, "kind": "header", "name": name,
-                              "value": rng.choice(["k1", "key with spaces", "a:b:c", "[v6]", "", "ü"])})
+                name = rng.choice(["X-Api-Key", "Authorization", "x-lower", "X-Tenant", "Host", "host", "X-Forwarded-For", "Content-Length",
+                                   "X-Real-IP", "Cookie", "User-Agent"])
+                st = {"op": "extract", "variable": "request.header." + name, "kind": "header", "name": name,
+                      "value": rng.choice(["k1", "key with spaces", "a:b:c", "[v6]", "", "ü"])}
+                if rng.random() < 0.3:
+                    st["absent"] = True      # the request does not carry the header at all: the token is the empty value
+                    st["value"] = ""
+                steps.append(st)
             elif x < 0.4:
                 steps.append({"op": "extract", "variable": "client.ip", "kind": "ip",
                               "raw": rng.choice(["", "nohostport", ":1234", "[::1", "::1", "1.2.3.4", "[]:80", "@", "a:b:c:d"])})
